@@ -166,6 +166,45 @@ func VH_C05_dashCanonical_Q() {
 	}
 }
 
+// C05-H2b: the "repeated pattern" reduction of dashCanonical on longer patterns without zeros:
+// 4 (thorough also 6) positive entries: the first half from a table, the second half repeating it
+// in some positions and symbolic (k/4) in the others - the pattern may only be halved when the
+// halves are equal.
+func VH_C05_dashCanonical_repeat_Q() {
+	n := 4 + 2*vChoose(0, vTier())
+	first := vChoose(0, 2)
+	d := make([]float64, n)
+	sum := 0.0
+	for i := range d {
+		if i < n/2 {
+			// first half concrete (keeps the on/off function piecewise linear in few unknowns)
+			d[i] = [][3]float64{{5, 2, 1}, {1, 0.5, 3}, {2, 2, 2}}[first][i]
+		} else if vChoose(0, 1) == 1 {
+			d[i] = d[i-n/2] // repeats the first half here
+		} else {
+			d[i] = vNondetDyadic(6, 2)
+			vAssume(0.25 <= d[i] && d[i] <= 6)
+		}
+		sum += d[i]
+	}
+	off := vNondetDyadic(9, 2)
+	vAssume(-2*sum <= off && off <= 2*sum)
+	before := vhCopyData(d)
+	off2, d2 := dashCanonical(off, d)
+	vAssert("C05.dashCanonical.repeat.argument_unchanged", vhSameData(d, before))
+	x := vNondetDyadic(8, 2)
+	vAssume(0 <= x && x < 2*sum)
+	want := vhOnPattern(off, before, x)
+	good := len(d2) > 0
+	for _, v := range d2 {
+		good = good && v > 0
+	}
+	vAssert("C05.dashCanonical.repeat.positive", good)
+	if good {
+		vAssert("C05.dashCanonical.repeat.same_onoff", vhOnPattern(off2, d2, x) == want)
+	}
+}
+
 // ---- C05-H3: the Dash driver on concrete axis-aligned polylines, concrete pattern, symbolic offset ----
 // Geometry and pattern are concrete (chosen from small tables that include several subpaths with
 // different closedness and a pattern of odd length); the offset and the probe position are
